@@ -73,6 +73,15 @@ BALANCED_SPECIAL = [
 ]
 
 UNBALANCED_SPECIAL = [
+    # equal in every element, different in net charge (negative and positive, one or several units)
+    "[I-].[I-]>>II",
+    "C[S-].C[S-]>>CSSC",
+    "O=O>>[O-][O-]",
+    "O=C1C=CC(=O)C=C1>>[O-]c1ccc([O-])cc1",
+    "[Cu+].[Cl-].[Cl-]>>[Cu+2].[Cl-].[Cl-]",
+    "[Fe+2]>>[Fe+3]",
+    "[S-2]>>[S-]",
+    "C[O-].C[O-]>>COOC",
     "[U]>>[Th]",
     "[Pu]>>[Am]",
     "[U](F)(F)(F)F>>[Np](F)(F)(F)F",
